@@ -348,6 +348,13 @@ class C14(Monitor):
                                  full=bool(x.x.get("full"))))
                     break
             batch = [x for x in w.items if x.t_avail_obs is not None and abs(x.t_avail_obs - w.now) < EPS]
+            if batch and w.waiting("g"):
+                pr = w.pub_ready() or []
+                if len(pr) > len(w.granted("g")):
+                    out.append(V("C14", "batch-available-together", w,
+                                 "batch %s arrived at %s but only %d of the destination's %d retrieval request(s) were served although %d item(s) are ready"
+                                 % ([b.obj for b in batch], w.now, len(w.granted("g")), len(w.granted("g")) + len(w.waiting("g")), len(pr)),
+                                 waiting=True))
             if batch:
                 D = w.now - tr2
                 for x in w.inside():
